@@ -508,6 +508,10 @@ def gen_lines(model, beh, rng, n):
             prefix = w[:cut]
             if rng.chance(1, 12):
                 prefix += "zz"
+            elif leaf.kind == "probe" and len(prefix) >= 2 and rng.chance(1, 6) and not any(ch in prefix for ch in "*?[]\\ "):
+                # typed text that would MATCH candidates if it were ever read as a shell pattern, but that none of them starts with:
+                # "only candidates extending the typed text are offered" means string prefix, not glob (top-level command points only)
+                prefix = rng.choice([prefix[:-1] + "?", prefix[:-1] + "*", "*" + prefix[1:], prefix[:-1] + "[" + prefix[-1] + "]"])
         elif rng.chance(1, 3):
             prefix = rng.choice(["c", "-", "zz", "--o"])
         lines.append({"words": words, "prefix": prefix, "kind": kind})
